@@ -1,4 +1,3 @@
 SPECIFICATION Spec
-INVARIANT Structure
 POSTCONDITION Accepted
 CHECK_DEADLOCK FALSE
